@@ -661,11 +661,13 @@ def _symbolic():
 
     M.intrinsics['method:lock'] = _ref_lock
 
+    normpath_f = z3.Function('normpath', Path_.sort(), Path_.sort())
+
     def _normpath(ex, st, args, kwargs, node):
-        f = z3.Function('normpath', Path_.sort(), Path_.sort())
-        return Val(Path_, f(args[0].t))
+        return Val(Path_, normpath_f(args[0].t))
 
     M.intrinsics['os.path.normpath'] = _normpath
+    M.intrinsics['os.fspath'] = lambda ex, st, args, kwargs, node: args[0]
 
     _with_lock = M.intrinsics['with']
 
@@ -700,9 +702,13 @@ def _symbolic():
             ('_fd_ref', [st.env['normalized_path']]),
             ('process_level_lock', [_b(st, '_fd_ref'), st.env['shared'], st.env['blocking'], st.env['reentrant']]),
             ('yield', _b(st, '_fd_ref'))],
+        # BOTH levels are keyed by the normalised path: two spellings of one file must meet in the same thread lock
+        # (the process-level lock does not exclude threads of one process) and in the same descriptor
         'path_lock': lambda st: [
-            ('thread_level_lock', [st.env['key'], st.env['shared'], st.env['blocking'], st.env['reentrant']]),
-            ('process_level_path_lock', [st.env['key'], st.env['shared'], st.env['blocking'], st.env['reentrant']]),
+            ('thread_level_lock', [Val(Path_, normpath_f(st.env['path'].t)), st.env['shared'], st.env['blocking'],
+                                   st.env['reentrant']]),
+            ('process_level_path_lock', [Val(Path_, normpath_f(st.env['path'].t)), st.env['shared'],
+                                         st.env['blocking'], st.env['reentrant']]),
             ('yield', _b(st, 'process_level_path_lock'))],
     }
     flags = {'shared': Bool, 'blocking': Bool, 'reentrant': Bool}
